@@ -68,7 +68,8 @@ Theorem C20_toffoli_in_every_ring :
   forall (R : Type) (rO rI : R) (radd rmul rsub : R -> R -> R) (ropp : R -> R)
          (Rth : ring_theory rO rI radd rmul rsub ropp (@eq R)) (omega half : R),
     opow R rI rmul omega 32 = ropp rI -> rmul (radd rI rI) half = rI ->
-    exists p, (p < 64)%nat /      rcircuit R rO rI radd rmul ropp omega half 3 gen_toffoli =
+    exists p, (p < 64)%nat /\
+      rcircuit R rO rI radd rmul ropp omega half 3 gen_toffoli =
         Some (rmscale R rmul (opow R rI rmul omega p)
                       (map (map (keval R rO rI radd rmul ropp omega half)) gTOFFOLI)).
 Proof.
